@@ -377,6 +377,40 @@ def cmp3 (c : Cmp) (e₁ e₂ : Expr) : Option Bool :=
     | _, _ => none
   else none
 
+/-! ## Class of the open findings PF-27 (b) / PF-29 (`known_findings.jsonl`)
+
+The model takes `Sum` as the lambdified python loop and `subst` never evaluates anything.  sympy itself
+evaluates a `Sum` that has no free names left (by Karr's convention, or numerically) wherever a function
+needs its sign or value.  For formulas in this class the correspondence between `subst`/`substNum` and
+`evaluate_symbolic` is known not to hold; the harness skips them (same predicate, `closed_sum_inspected`). -/
+
+def ScUn.inspects : ScUn → Bool
+  | .floor | .ceil | .abs => true
+  | _ => false
+
+def ScBin.inspects : ScBin → Bool
+  | .mod | .min | .max | .lt | .le | .gt | .ge | .eq | .ne => true
+  | _ => false
+
+/-- a `Sum` all of whose free names are in `known` (numbers for sympy: replaced by `evaluate_symbolic`, or
+indices of enclosing sums) below Min / Max / Mod / floor / ceiling / Abs / a relation / a Piecewise condition -/
+def closedSumInspected (known : List String) : Bool → Expr → Bool
+  | _, .lit _ => false
+  | _, .var _ => false
+  | ins, .un (.sc o) a => closedSumInspected known (ins || o.inspects) a
+  | ins, .un (.bcast _) a => closedSumInspected known ins a
+  | ins, .bin (.sc o) a b =>
+    closedSumInspected known (ins || o.inspects) a || closedSumInspected known (ins || o.inspects) b
+  | ins, .bin _ a b => closedSumInspected known ins a || closedSumInspected known ins b
+  | ins, .ite c a b =>
+    closedSumInspected known true c || closedSumInspected known ins a || closedSumInspected known ins b
+  | ins, .sum i lo hi body =>
+    (ins && (fv (.sum i lo hi body)).all (fun x => known.contains x))
+      || closedSumInspected known ins lo || closedSumInspected known ins hi
+      || closedSumInspected (i :: known) ins body
+
+def InKnownClassClosedSum (known : List String) (e : Expr) : Bool := closedSumInspected known false e
+
 /-! ## The formula an arithmetic operator builds -/
 
 /-- the Python operator methods of `ExpressionScalar` (`self` is the expression, `other` the operand) -/
@@ -588,6 +622,10 @@ def handle : List Sexp → Sexp
       | some t => .list [.atom "some", ofBool t]
       | none => .atom "none"
     | _, _, _ => Sexp.err "bad-args"
+  | [.atom "known-class", .list known, e] =>
+    match known.mapM (fun | .atom x => some x | _ => none), formula? e with
+    | some ks, some e => ofBool (InKnownClassClosedSum ks e)
+    | _, _ => Sexp.err "bad-args"
   | [.atom "fv", e] =>
     match Expr.ofSexp e with
     | some e => .list ((fv e).eraseDups.map .atom)
